@@ -115,7 +115,9 @@ def keep(pid, letter):
         shutil.copy(os.path.join(out, "demo", f), dst)
     shutil.copy(os.path.join(out, "notes.md"), dst)
     det = os.path.join(ROOT, "work", f"detect-{pid}-{letter}.json")
+    cross = os.path.join(ROOT, "work", "cross", f"cross-{pid}-{letter}.json")
     meta = {"property": pid, "mutant": letter,
+            "cross": json.load(open(cross)) if os.path.exists(cross) else None,
             "confirmed": "tools/mutant.py confirm: demo passes on the clean tree; with the patch the unedited suite (98 tests + doctests) passes and the demo fails",
             "detection": json.load(open(det)) if os.path.exists(det) else None}
     notes = open(os.path.join(out, "notes.md")).read()
